@@ -55,6 +55,7 @@ def Ast.level : Ast → Nat
   | .and_ _ _ => lvAnd
   | .bin op _ _ => (binLevel op).1
   | .neg _ => lvUnary
+  | .un _ _ => lvUnary
   | .call _ _ => lvTail
   | .dot _ _ => lvTail
   | _ => lvAtom
@@ -82,7 +83,11 @@ def markFirst : List String → List String
 
 def Ast.isNeg : Ast → Bool
   | .neg _ => true
+  | .un _ _ => true
   | _ => false
+
+def unSrc : UnOp → String
+  | .pos => "+" | .not => "!" | .pset => "^"
 
 def attrNames : Ast → List String
   | .cons n _ _ r => n :: attrNames r
@@ -133,6 +138,7 @@ def node (full : Bool) : Ast → Bool → List String
   | .dot (.num k) n, _ => (if full then ["(", "(", toString k, ")", ")"] else ["(", toString k, ")"]) ++ ["." ++ n]
   | .dot e n, _ => T[e, lvTail, false] ++ ["." ++ n]
   | .neg e, tail => ["-"] ++ (if e.isNeg then markFirst T[e, lvUnary, tail] else T[e, lvUnary, tail])
+  | .un op e, tail => [unSrc op] ++ (if e.isNeg then markFirst T[e, lvUnary, tail] else T[e, lvUnary, tail])
   | .bin op a b, tail =>
     match binLevel op with
     | (l, .left) => T[a, l, false] ++ [binSrc op] ++ T[b, l + 1, tail]
